@@ -7,7 +7,8 @@ is an IP literal (and whether it is IPv4) is a parameter of the model (`isIP`, `
 by the real `netip.ParseAddr` in the correspondence run (trusted standard library).
 
 Part B (pacing): the `watcher` loop as a state machine over an explicit virtual clock. A lookup
-takes no virtual time (the harness's scripted resolver answers at once). The jittered backoff
+takes `dur` ns of virtual time (a parameter of the step that performs it; the watcher goroutine is
+busy meanwhile, so the step is atomic for the model). The jittered backoff
 `backoff.DefaultExponential.Backoff(k)` is random in the real code, so the delay actually used
 is a parameter of the step that fires after a failure.
 -/
@@ -96,6 +97,7 @@ structure W where
   rn   : Bool          -- a token sits in the 1-slot `rn` channel
   idx  : Nat           -- backoffIndex
   minI : Nat           -- MinResolutionInterval (ns)
+  lastDone : Nat       -- instant at which the most recent lookup returned
   -- ghost history
   rnCalls  : Nat       -- ResolveNow calls so far
   consumed : Nat       -- tokens taken by the watcher
@@ -103,12 +105,13 @@ structure W where
 deriving Repr
 
 def W.init (minI : Nat) : W :=
-  { now := 0, mode := .idle, rn := false, idx := 1, minI := minI, rnCalls := 0, consumed := 0, lookups := [] }
+  { now := 0, mode := .idle, rn := false, idx := 1, minI := minI, lastDone := 0, rnCalls := 0, consumed := 0, lookups := [] }
 
-/-- one lookup at the current time with result `ok`; `delay` is the backoff the real code drew
-    (used only after a failure). -/
-def doLookup (w : W) (ok : Bool) (delay : Nat) : W :=
-  let w := { w with lookups := (w.now, ok) :: w.lookups }
+/-- one lookup STARTED at the current time, taking `dur`, with result `ok`; `delay` is the backoff the
+    real code drew (used only after a failure). The clock is read AFTER the lookup returned:
+    `nextResolutionTime = TimeNow().Add(MinResolutionInterval)` resp. `.Add(Backoff(idx))`. -/
+def doLookup (w : W) (ok : Bool) (delay dur : Nat) : W :=
+  let w := { w with lookups := (w.now, ok) :: w.lookups, now := w.now + dur, lastDone := w.now + dur }
   if ok then
     let next := w.now + w.minI
     if w.rn then { w with idx := 1, rn := false, consumed := w.consumed + 1, mode := .waitT next }
@@ -117,15 +120,15 @@ def doLookup (w : W) (ok : Bool) (delay : Nat) : W :=
     { w with idx := w.idx + 1, mode := .waitT (w.now + delay) }
 
 inductive Ev
-  | build (ok : Bool) (delay : Nat)      -- Build: the watcher starts and looks up at once
+  | build (ok : Bool) (delay dur : Nat)  -- Build: the watcher starts and looks up at once
   | resolveNow
-  | tick (to : Nat) (ok : Bool) (delay : Nat)  -- time advances to `to` (≤ the pending timer); if the timer is due it fires and a lookup runs
+  | tick (to : Nat) (ok : Bool) (delay dur : Nat)  -- time advances to `to`; if the pending timer is due it fires and a lookup (taking `dur`) runs
   | close
 deriving Repr
 
 def step (w : W) : Ev → W
-  | .build ok d => match w.mode with
-    | .idle => doLookup w ok d
+  | .build ok d dur => match w.mode with
+    | .idle => doLookup w ok d dur
     | _ => w
   | .resolveNow =>
     let w := { w with rnCalls := w.rnCalls + 1 }
@@ -133,11 +136,11 @@ def step (w : W) : Ev → W
     | .waitRN next => { w with consumed := w.consumed + 1, mode := .waitT next }   -- token taken at once
     | .closed => w
     | _ => { w with rn := true }                                                      -- select … default: coalesced
-  | .tick to ok d => match w.mode with
+  | .tick to ok d dur => match w.mode with
     | .waitT due =>
       if to < w.now then w
       else if to < due then { w with now := to }
-      else doLookup { w with now := max w.now due } ok d    -- fires exactly at `due` (or now, if already due)
+      else doLookup { w with now := max w.now due } ok d dur    -- fires exactly at `due` (or now, if already due)
     | _ => if to < w.now then w else { w with now := to }
   | .close => { w with mode := .closed }
 
